@@ -18,6 +18,9 @@ Step == CASE e.op = "@" -> Restart
           [] e.op = "add" -> Add(Drop(e.a, 1))
           [] e.op = "consume" -> Consume(e.a[1])
           [] e.op = "consume_at_most" -> ConsumeAtMost(e.a[1])
+          [] e.op = "addhuge" -> AddHuge(e.a[1])
+          [] e.op = "consumehuge" -> ConsumeHuge(e.a[1])
+          [] e.op = "camhuge" -> ConsumeAtMostHuge(e.a[1])
           [] e.op = "rewind" -> Rewind
           [] e.op = "clear" -> Clear
           [] e.op = "reset" -> Reset
